@@ -11,3 +11,7 @@ package dup
 //@ func (g *gen) Generate(typs []types.Type) (err error)
 //@ param typs: len=1
 //@ emits: decls
+//@ serves: dup len=1 typs=typs
+//@ o-sig: (c $typs[0]) (c1, c2 <-chan $elem(typs[0]))
+//@ o-header: unchecked
+//@ o-text-only: all
